@@ -180,6 +180,32 @@ class HistoryRunner:
                 return self._last
         return None
 
+    def op_reqrel_target_delete(self):
+        """delete the object a requirement relation (incoming/outgoing/internal) points at: the relation element stays behind
+        with one end missing"""
+        rels = []
+        for cls in ("CapellaIncomingRelation", "CapellaOutgoingRelation", "InternalRelation"):
+            try:
+                rels += list(self.model.search(cls))
+            except Exception:  # noqa: BLE001
+                pass
+        self.rng.shuffle(rels)
+        for rel in rels[:20]:
+            for end in ("target", "source"):
+                try:
+                    o = getattr(rel, end)
+                except Exception:  # noqa: BLE001
+                    continue
+                if o is None or not hasattr(o, "_element") or type(o).__name__ == "Requirement" or not self._alive(o):
+                    continue
+                cont = self.container_of(o)
+                if cont is None:
+                    continue
+                self._last = f"delete the {end} {type(o).__name__}({o.uuid}) of {type(rel).__name__}({rel.uuid})"
+                getattr(cont[0], cont[1]).remove(o)
+                return self._last
+        return None
+
     def _requirement(self):
         return self.pick(lambda o: type(o).__name__ == "Requirement")
 
